@@ -434,7 +434,8 @@ func TestProp(t *testing.T) {
 			"no error/NaN; same text parsed twice is Equal(.,0) and NewTransform between them is nil; proj4js on the same WKT agrees within 0.1 mm (named datums only - proj4js 2.3.12 ignores TOWGS84 clauses in WKT - and when node is available); every tenth case reads the WKT through " +
 			"(*shp.Decoder).SR from a .prj file. Registered names vs their definitions: Equal both ways, nil transformer, same outputs. Equal/NewTransform on generated pairs (identical, towgs84 lists of " +
 			"different length, one parameter changed, one parameter present on one side only, unrelated; and pairs both rendered as WKT with the same PROJCS name - identical, central meridian / false easting / unit / datum changed, unrelated): no panic, symmetric, NewTransform nil iff Equal, and Equal references map WGS84 positions identically. Non-trivial = non-metre unit, " +
-			"TOWGS84 clause, OGC-dialect Albers; name cases; equal cases with different towgs84 lengths or Equal true. Distinct by case hash.",
+			"TOWGS84 clause, OGC-dialect Albers; name cases; equal cases with different towgs84 lengths or Equal true. Distinct by case hash." +
+			" Round 9: decoy parses between parsing a reference and using it; free-text WKT names with commas or of one character.",
 		Assumptions: []string{"WKT without blanks after commas (as GDAL and ESRI write .prj files)", "definitions that give no datum information are not compared across notations (PROJ.4 text: unknown datum; WKT: always names a datum)"},
 		Gen:         gen,
 		Run:         run,
